@@ -4,6 +4,8 @@
 id=$1
 # optional: two variant letters (default a b), e.g. agent_prompt.sh C03 c d
 x=${2:-a}; y=${3:-b}
+# optional 4th argument: an extra generic hint line (nothing from /verif)
+HINT=${4:-}
 dir=/tmp/wt/$id
 prop=$(jq -r --arg id "$id" 'select(.id==$id) | "Title: \(.title)\n\nStatement: \(.statement)\n\nQuantified over: \(.quantifier.text)"' /verif/properties.jsonl)
 cat <<EOT
@@ -17,7 +19,7 @@ Your task: produce TWO independent, realistic changes (call them "$x" and "$y") 
  (1) the workspace still compiles,
  (2) the existing test suite still passes completely: run \`cd $dir && CARGO_NET_OFFLINE=true cargo test --workspace --offline -j 4 2>&1 | grep -E "^test result|FAILED|failed|error" \` and confirm there are no failures (doc tests included),
  (3) the breakage needs something SPECIFIC to manifest - a particular multi-step sequence of operations, a fault or short write at a particular point, an unusual input value or schema shape, a boundary value, or two cooperating code sites that each look fine alone - NOT something ordinary use would expose at once. It should look like a plausible refactoring / optimisation / bug-fix mistake a maintainer could make, not sabotage.
-The two changes should touch different mechanisms/code sites.
+The two changes should touch different mechanisms/code sites. $HINT
 
 For each change X in {$x,$y} provide in $dir/SEEDED/X/:
   - patch.diff : \`git diff\` of the library source change only (must apply to a clean checkout with \`git apply\`)
